@@ -75,11 +75,13 @@ func (n *Node) Shape() string {
 // KVs, simulated file systems and scratch directories. Wrappers (real perkeep
 // storage objects) are rebuilt over it for every process generation.
 type World struct {
-	Env     *Env
-	Stores  map[string]*StoreState
-	KVs     map[string]*KVState
-	VFSs    map[string]*VFSState
-	Dir     string // scratch directory for real-file backends
+	Env    *Env
+	Stores map[string]*StoreState
+	KVs    map[string]*KVState
+	VFSs   map[string]*VFSState
+	Dir    string // scratch directory for real-file backends
+	// DirOf overrides the directory of a real-file node (crash images).
+	DirOf   map[string]string
 	KeyFile string
 
 	mu      sync.Mutex
@@ -144,6 +146,26 @@ func (w *World) VFS(name string) *VFSState {
 		w.VFSs[name] = st
 	}
 	return st
+}
+
+// NodeDir is the directory a real-file node lives in.
+func (w *World) NodeDir(name string) string {
+	w.mu.Lock()
+	defer w.mu.Unlock()
+	if d, ok := w.DirOf[name]; ok {
+		return d
+	}
+	return filepath.Join(w.Dir, name)
+}
+
+// SetNodeDir points a real-file node at another directory (a crash image).
+func (w *World) SetNodeDir(name, dir string) {
+	w.mu.Lock()
+	defer w.mu.Unlock()
+	if w.DirOf == nil {
+		w.DirOf = map[string]string{}
+	}
+	w.DirOf[name] = dir
 }
 
 func prefixOf(name string) string { return "/" + name + "/" }
@@ -248,7 +270,7 @@ func (w *World) construct(n *Node, g *Gen) (blobserver.Storage, error) {
 		}
 		return blobserver.CreateStorage("filesystem", w, jsonconfig.Obj{"path": dir})
 	case "diskpacked":
-		dir := filepath.Join(w.Dir, n.Name)
+		dir := w.NodeDir(n.Name)
 		if err := os.MkdirAll(dir, 0o755); err != nil {
 			return nil, err
 		}
